@@ -177,6 +177,20 @@ def tracker_operator(run, prog, cls, rule, prefix):
         run.fail(rule, f"{prefix}.copy.{f}", f"{s.path}:{s.fn.lineno}", fq, f"self.{f} = {ir.show_nl(t)[:100]}",
                  f"every estimate tracker must be an independent deep copy of the one base tracker; self.{f} is "
                  f"{ir.show_nl(t)[:160]} (a shared object would be updated through several fields)")
+    # the estimates start empty: the constructor must not feed any value into an estimate tracker (every tracker
+    # must have seen exactly the explained observations -- a tracker that is one update ahead of the others
+    # breaks the identities between them)
+    for ev, ctx in walk(s.events):
+        fed = None
+        if isinstance(ev, ir.Call) and ev.method == "update" and any(ev.callee == f"self.{f}" for f in trackers):
+            fed = ev.callee[5:]
+        elif isinstance(ev, ir.Mut) and ev.method == "update" and any(ev.recv == s.fields.get(f) for f in trackers):
+            fed = next(f for f in trackers if ev.recv == s.fields.get(f))
+        if fed is not None:
+            run.fail(rule, f"{prefix}.pristine.{fed}", f"{s.path}:{ev.line}", fq,
+                     f"constructor updates self.{fed}: {run.stmt_text(s.path, ev.line)}",
+                     f"the estimate trackers must be empty after construction; the constructor already feeds a value "
+                     f"into self.{fed}, so this estimate counts one observation more than the other trackers")
     if len(bases) > 1:
         run.fail(rule, f"{prefix}.same-base", f"{s.path}:{s.fn.lineno}", fq, "different base trackers",
                  "the trackers are not copies of one base tracker: " + " | ".join(ir.show_nl(b)[:80] for b in bases.values()))
